@@ -252,6 +252,14 @@ def measure_mib(paths):
     return total / 2 ** 20
 
 
+def run_loop(coro):
+    """Like asyncio.run, but without its final 'cancel every task and wait for it': a scheduler task that
+    cannot be cancelled (see Run.cleanup) must not keep the worker alive -- the worker exits with os._exit."""
+    loop = asyncio.new_event_loop()
+    asyncio.set_event_loop(loop)
+    return loop.run_until_complete(coro)
+
+
 def short_msg(e):
     m = str(e)
     return m if len(m) <= 400 else m[:200] + " ... " + m[-200:]
@@ -305,6 +313,8 @@ class Run:
         self.exceptions: list = []
         self.exc_charges: list = []            # charges of the allocation whose notification raised
         self.last_alloc: dict = {}             # job index -> JobAllocation object of its latest grant
+        self.in_notify: dict = {}              # job index -> status of the notify_status() call in flight
+        self.stuck_notifies = 0
         self.trace: list = []                  # boundary events in the order they happened
         self.skipped = 0
         self.jobdirs: list = []
@@ -407,11 +417,13 @@ class Run:
         if status == "RUNNING" and cur == "FIREABLE":
             self.populate(j)
         self.trace.append(("call", "N", j, status))
+        self.in_notify[j] = status
         try:
             await self.sch.notify_status(name, Status[status])
         except asyncio.CancelledError:
             raise
         except Exception as e:
+            self.in_notify.pop(j, None)
             self.exceptions.append(("notify", j, status, type(e).__name__, short_msg(e)))
             jl = self.ledger.jobs[name]
             self.exc_charges.append({"job": j, "charges": [(ln, dict(ch)) for ln, ch, _ in jl["charges"]],
@@ -424,6 +436,7 @@ class Run:
                 self.merged.on_status(name, status, lambda ps: measure_mib([p for p, _ in ps]))
             self.obs.on_exception(self, ("notify", j, status), e)
             return
+        self.in_notify.pop(j, None)
         if self.ledger.on_status(name, status, lambda ps: measure_mib([p for p, _ in ps])):
             self.stats["released"] += 1
         if self.merged is not None:
@@ -454,6 +467,12 @@ class Run:
         if not ok:
             return False
         self.stats["quiescent_points"] += 1
+        if self.in_notify:
+            # the loop is quiescent while notify_status() has not returned: nothing can ever complete it
+            self.stuck_notifies += 1
+            hook = getattr(self.obs, "on_deadlock", None)
+            if hook is not None:
+                hook(self, dict(self.in_notify))
         await self.obs.at_quiescence(self, tag)
         return True
 
@@ -514,19 +533,23 @@ class Run:
         return "done"
 
     async def cleanup(self):
+        """Cancel what the run left behind.  Bounded: a task that swallows cancellation (asyncio.Condition.wait
+        re-acquiring a lock nobody will ever release) is abandoned, never awaited forever."""
+        cur = asyncio.current_task()
         tasks = [t for t in self.chain.values() if not t.done()]
+        # stray _process_target tasks of finished schedule() calls wait on the condition: cancel them too
+        tasks += [t for t in asyncio.all_tasks() if t is not cur and not t.done() and t not in tasks
+                  and getattr(t.get_coro(), "__qualname__", "").startswith("DefaultScheduler.")]
         for t in tasks:
             t.cancel()
-        if tasks:
-            await asyncio.gather(*tasks, return_exceptions=True)
-        # stray _process_target tasks of finished schedule() calls wait on the condition: cancel them
-        cur = asyncio.current_task()
-        stray = [t for t in asyncio.all_tasks() if t is not cur and not t.done()
-                 and getattr(t.get_coro(), "__qualname__", "").startswith("DefaultScheduler.")]
-        for t in stray:
-            t.cancel()
-        if stray:
-            await asyncio.gather(*stray, return_exceptions=True)
+        for _ in range(200):
+            if all(t.done() for t in tasks):
+                break
+            await asyncio.sleep(0)
+        self.abandoned = sum(1 for t in tasks if not t.done())
+        for t in tasks:
+            if t.done() and not t.cancelled():
+                t.exception()  # retrieved: keeps asyncio from logging it at garbage collection
         shutil.rmtree(os.path.join(self.mat["root"], "jobs", f"c{self.no}"), ignore_errors=True)
         for p in set(self.jobdirs):
             # job directories live under the mount points: jobs/c<no>/... below each base
@@ -838,7 +861,7 @@ def run_histories_for_contracts(sh, n):
         finally:
             await env.stop()
 
-    asyncio.run(main())
+    run_loop(main())
 
 
 # ------------------------------------------------------------------------------------------------
@@ -868,6 +891,10 @@ def drive(sh, observer_factory, classes, reps=2, exhaustive=True, replay_case=No
         sh.count("quiescent_points", run.stats["quiescent_points"])
         sh.count("grants", run.stats["granted"])
         sh.count("releases", run.stats["released"])
+        if run.stuck_notifies:
+            sh.count("runs_with_notify_status_stuck_at_quiescence")
+        if getattr(run, "abandoned", 0):
+            sh.count("uncancellable_scheduler_tasks", run.abandoned)
         traces.add(digest(run.trace, 12))
         obs.finish(run)
         return run
@@ -923,7 +950,7 @@ def drive(sh, observer_factory, classes, reps=2, exhaustive=True, replay_case=No
                 sh.note("c14_law_failures_seen", c14_hw.FAILURES[:3])
             await env.stop()
 
-    asyncio.run(main())
+    run_loop(main())
 
 
 def summarize(run, limit=14):
